@@ -540,18 +540,15 @@ fn create_doc_for_block(
     segments.push(statement_to_document(heap, comment_store, stmt));
     segments.push(Document::LineHard);
   }
-  if let Some(comments) = associated_comments_doc(
+  let ending_comments_doc = associated_comments_doc(
     heap,
     comment_store,
     vec![block.ending_associated_comments],
     DocumentGrouping::Expanded,
     false,
-  ) {
-    segments.push(comments);
-    segments.push(Document::LineHard);
-  }
+  );
   let final_expr_doc = block.expression.as_ref().map(|e| create_doc(heap, comment_store, e));
-  if segments.is_empty() {
+  if segments.is_empty() && ending_comments_doc.is_none() {
     if force_expanded {
       Document::concat(vec![
         Document::Text("{"),
@@ -569,11 +566,17 @@ fn create_doc_for_block(
       braces_surrounded_doc(final_expr_doc.unwrap_or(Document::Nil))
     }
   } else {
+    // The comments before the closing brace stay after the final expression: that is where they
+    // were written, and where the parser will find them again (formatting is idempotent).
     if let Some(d) = final_expr_doc {
       segments.push(d);
-    } else {
-      segments.pop();
+      segments.push(Document::LineHard);
     }
+    if let Some(comments) = ending_comments_doc {
+      segments.push(comments);
+      segments.push(Document::LineHard);
+    }
+    segments.pop();
     Document::concat(vec![
       Document::Text("{"),
       Document::Nest(
